@@ -243,7 +243,9 @@ def main():
             add_tasks(tasks, c.with_(word=W), full=not quick and c.name.startswith('alloc/'), wall=500)
     if quick:
         for i, c in enumerate(F.alloc_templates()):
-            add_tasks(tasks, c.with_(word=3 + (i % 2)), full=False, wall=300)
+            # library routines with their own stack guard (write family) at both wider words; the rest alternates
+            for W in ((3, 4) if 'write' in c.name else (3 + (i % 2),)):
+                add_tasks(tasks, c.with_(word=W), full=False, wall=300)
     nsizes = [0]
     firsts = {}
 
